@@ -445,7 +445,7 @@ class VariableCovarianceGaussianEnergy(LikelihoodEnergyOperator):
         """
         r = FieldAdapter(self._domain[self._kr], self._kr)
         ivar = FieldAdapter(self._domain[self._kr], self._ki).real
-        sc = 1. if self._cplx else 0.5
+        sc = np.sqrt(0.5) if self._cplx else 0.5
         f = r.adjoint @ (ivar.sqrt()*r) + ivar.adjoint @ (sc*ivar.log())
         return self._dt, f
 
